@@ -209,7 +209,7 @@ PROPS = {
     },
     "C05": {
         "extra": design_pegcore_for("C05"),
-        "families": ["exc"],
+        "families": ["exc", "mi"],
         "must_count": ["xcs", "raise", "cases"],
         "nontrivial_key": "xcs",
         "level": "Den gives the first must/raise in evaluation order (rule, start of the attempt, nesting) and what each try_catch "
